@@ -87,5 +87,6 @@ DeviationInvisible_NoLookbehind      == phase = 1 => Accepted("NoLookbehind")
 DeviationInvisible_NoLookahead       == phase = 1 => Accepted("NoLookahead")
 DeviationInvisible_AtomicAlternation == phase = 1 => Accepted("AtomicAlternation")
 DeviationInvisible_FirstMatchOnly    == phase = 1 => Accepted("FirstMatchOnly")
+DeviationInvisible_DigitBeyondPunct  == phase = 1 => Accepted("DigitBeyondPunct")
 DeviationInvisible_AvoidCollisions   == phase = 1 => Accepted("AvoidCollisions")
 =============================================================================
